@@ -12,17 +12,27 @@ from harness import core, codec
 
 RULE = ("pairs of YAML documents (root mapping or sequence, one nested sequence) whose slots hold plain scalars, "
         "scalar anchor definitions and aliases from a pool of three anchor names (x, y, x_1 - so a renamed name can "
-        "collide) and values 1, 2, 1.0, true, 'a'; all valid 3-slot documents are enumerated and paired (complete in the "
+        "collide) and values 1, 2, 1.0, true, 'a', custom-tagged texts, values Python reads as false, and quoted texts that "
+        "spell another type's literal ('1', 'true', '1.0' next to 1, true, 1.0; !t 1.0 next to !t 1.00 - different values "
+        "although a type-coercing comparison would call them equal); all valid 3-slot documents are enumerated and paired (complete in the "
         "thorough tier, seeded sample in the quick tier) plus seeded larger documents; x 4 anchor policies x sampled "
         "array policies.  Per case: (1) the real Merger._resolve_anchor_conflicts on the loaded documents vs the Lean "
         "model `resolve` (documents compared with anchor names and object-identity classes); (2) directly on the real "
         "merge_with: stop refuses iff a conflict exists, left/right make every node of a conflicting name read the "
         "left/right value, rename keeps both under distinct names, the dump (tool's own editor) has no duplicate "
-        "anchor and strict-reloads to the merged data.  distinct_nontrivial = distinct (left, right, mode) with at "
+        "anchor and strict-reloads to the merged data.  The policy as the yaml-merge command receives it (--anchors, "
+        "[defaults] anchors of --config, both, none) for a sample of pairs; and SERIES of 3-4 documents condensed by one "
+        "yaml-merge run (multi-document left file, multi-document right file, one file of three documents, three files; "
+        "documents from the pools plus anchor-free ones): under stop the command must refuse iff at some step of the series "
+        "- first, middle or last - a same-name anchor differs from the one accumulated so far; otherwise its output is that of "
+        "the same series of merges through the API.  distinct_nontrivial = distinct (left, right, mode) with at "
         "least one anchor name present in both documents.")
 
 NAMES = ["x", "y", "x_1"]
-VALUES = ["1", "2", "1.0", "true", "a", "!t a", "!u a", "!t b", "false", "''", "0.0"]   # incl. values Python reads as false
+VALUES = ["1", "2", "1.0", "true", "a", "!t a", "!u a", "!t b", "false", "''", "0.0",   # incl. values Python reads as false
+          # text that spells another type's literal: '1' / 1 / 1.0 / true, 'true' / true, '1.0' / 1.0 are DIFFERENT values
+          # (a string is not a number), as are two texts behind one custom tag
+          "'1'", "'true'", "'1.0'", "!t 1.0", "!t 1.00"]
 MODES = ["stop", "left", "right", "rename"]
 
 
@@ -212,12 +222,14 @@ def run_case(case, log, drv_reqs, drv_ctx):
     from yamlpath.merger import Merger, MergerConfig
     from yamlpath.merger.exceptions import MergeException
     from yamlpath.common import Parsers
-    ltxt, rtxt, mode, arrays = case["l"], case["r"], case["mode"], case.get("arrays", "all")
+    ltxt, rtxt, mode, arrays = case.get("l"), case.get("r"), case["mode"], case.get("arrays", "all")
     rec = {"case": case, "viol": [], "skip": False}
     chain = case.get("r0")      # an earlier right-hand document merged first by the same Merger
     mergeat = case.get("mergeat")
     if chain is not None:
         return run_chain(case, log, rec)
+    if case.get("files"):
+        return run_cli_multi(case, log, rec)
     if case.get("via"):
         return run_cli(case, log, rec)
     # ---- (1) resolution step alone
@@ -357,6 +369,104 @@ def run_cli(case, log, rec):
     return rec
 
 
+def run_cli_multi(case, log, rec):
+    """Several documents condensed by one yaml-merge run (default multi-document mode): `files` is a list of files, each a
+    list of document texts (a multi-document left file, a multi-document right file, one file of three documents, three
+    files).  The command merges them in file order, document order, into the first.  Clauses judged on the command's own
+    outcome: under stop (given by --anchors, by the configuration file or by default) it refuses (non-zero exit status)
+    iff at SOME step a same-name anchor of the document merged in differs from the one accumulated so
+    far, wherever in the series that step is; otherwise its output is the document the same series of merges through the
+    API gives (whose single steps are judged by the clause checks of the other cases)."""
+    import os
+    from yamlpath.merger import Merger, MergerConfig
+    from yamlpath.merger.exceptions import MergeException
+    from yamlpath.common import Parsers
+    from harness.props import cli_common as cc
+    via, mode, files = case["via"], case["mode"], case["files"]
+    rec["cli"] = True
+    d = cc.tmpdir()
+    paths = []
+    for i, docs in enumerate(files):
+        p = os.path.join(d, "c10m-%d-%d.yaml" % (os.getpid(), i))
+        with open(p, "w") as fh:
+            fh.write("".join("---\n" + t for t in docs) if len(docs) > 1 else docs[0])
+        paths.append(p)
+    argv = ["--nostdin"]
+    if via == "config":
+        cf = os.path.join(d, "c10m-%d.ini" % os.getpid())
+        with open(cf, "w") as fh:
+            fh.write("[defaults]\nanchors = %s\n" % mode)
+        argv += ["--config", cf]
+    elif via == "cli":
+        argv += ["--anchors", mode]
+    if case.get("arrays"):
+        argv += ["--arrays", case["arrays"]]
+    argv += paths
+    # the series through the API, step by step
+    texts = [t for docs in files for t in docs]
+    acc = Merger(log, load(texts[0], log), MergerConfig(log, SimpleNamespace(anchors=mode, arrays=case.get("arrays", "all"))))
+    refusing_step, ncommon, nconf = None, 0, 0
+    for k, t in enumerate(texts[1:], 1):
+        doc = load(t, log)
+        lanch = {n: nd for n, nd, _i in anchored_nodes(acc.data)}
+        ranch = {n: nd for n, nd, _i in anchored_nodes(doc)}
+        common = [n for n in ranch if n in lanch]
+        conflicts = [n for n in common if not veq(lanch[n], ranch[n])]
+        ncommon += len(common)
+        nconf += len(conflicts)
+        if mode == "stop" and conflicts:
+            refusing_step = (k, conflicts)
+            break
+        try:
+            acc.merge_with(doc)
+        except Exception:  # noqa: a structural refusal or a crash of a single step is judged by the API cases
+            rec["skip"] = True
+            return rec
+    rec["common"], rec["conflicts"] = ncommon, nconf
+    rec["multi"] = "refusal-demanded-at-%s-step" % ("last" if refusing_step and refusing_step[0] == len(texts) - 1 else "an-earlier") \
+        if refusing_step else "accepted"
+    res = cc.run_inproc("merge", argv)
+    if res.get("timeout"):
+        rec["viol"].append(("timeout", "yaml-merge did not finish"))
+        return rec
+    if "crash" in res:
+        rec["viol"].append(("cli-" + res["crash"] + "@" + res.get("site", "?"), "yaml-merge %s let %s escape" % (argv[:-len(paths)], res["crash"])))
+        return rec
+    how = {"cli": "--anchors=%s" % mode, "config": "[defaults] anchors = %s in --config" % mode, "none": "no anchor policy given (stop)"}[via]
+    shape = "files of %s documents" % "+".join(str(len(x)) for x in files)
+    if refusing_step is not None:
+        if res["rc"] == 0:
+            rec["viol"].append(("multidoc:stop-accepts-conflict",
+                                "yaml-merge with %s condensing %s exits 0 and writes %r although document %d of the series defines %s "
+                                "with another value than the documents before it" % (how, shape, res["out"][:200],
+                                                                                      refusing_step[0] + 1, refusing_step[1])))
+        return rec
+    if res["rc"] != 0:
+        rec["viol"].append(("multidoc:refused-under-%s" % mode,
+                            "yaml-merge with %s condensing %s exits %d (%s); every step of the series is accepted by the policy" % (
+                                how, shape, res["rc"], res["err"].strip().split("\n")[-1][:120])))
+        return rec
+    try:
+        y = Parsers.get_yaml_editor()
+        acc.prepare_for_dump(y, "out.yaml")
+        buf = io.StringIO()
+        y.dump(acc.data, buf)
+    except Exception:  # noqa: judged by the API cases
+        return rec
+    got, ok = Parsers.get_yaml_data(Parsers.get_yaml_editor(), log, res["out"], literal=True)
+    exp, ok2 = Parsers.get_yaml_data(Parsers.get_yaml_editor(), log, buf.getvalue(), literal=True)
+    if not ok2:
+        return rec
+
+    def view(dt):
+        return [plain_json(dt), sorted((n, json.dumps(vj(nd), sort_keys=True)) for n, nd, _i in anchored_nodes(dt))]
+    if not ok or view(got) != view(exp):
+        rec["viol"].append(("multidoc:not-%s" % mode,
+                            "yaml-merge with %s condensing %s wrote %r; the series of merges under %s defines %r" % (
+                                how, shape, res["out"], mode, buf.getvalue())))
+    return rec
+
+
 def judge_merge(merger, rhs, rtxt, mode, rec):
     """The property's clauses for merging `rhs` into merger.data (as it stands now)."""
     from yamlpath.merger.exceptions import MergeException
@@ -475,9 +585,12 @@ def worker(cases):
             continue
         if rec.get("oom"):
             out["skip"] += 1     # counted as out of model; the direct clauses below were still judged
-        key = "%s|%s|%s|%s|%s" % (c["l"], c.get("r0"), c["r"], c["mode"], c.get("via"))
+        key = "%s|%s|%s|%s|%s|%s" % (c.get("l"), c.get("r0"), c.get("r"), c["mode"], c.get("via"), c.get("files"))
         if c.get("via"):
             out["hist"]["policy via " + c["via"]] = out["hist"].get("policy via " + c["via"], 0) + 1
+        if rec.get("multi"):
+            hk = "multidoc %s mode=%s: %s" % ("+".join(str(len(x)) for x in c["files"]), c["mode"], rec["multi"])
+            out["hist"][hk] = out["hist"].get(hk, 0) + 1
         if rec.get("common"):
             out["nontrivial"].add(hash(key))
         h = "mode=%s conflicts=%s" % (c["mode"], min(rec.get("conflicts", 0), 2))
@@ -573,6 +686,22 @@ def gen_cases(chk):
         if via == "both":
             c["cfgmode"] = rng.choice(MODES)
         cases.append(c)
+    # several documents condensed by ONE yaml-merge run: the refusal under stop wherever in the series the conflict is
+    plm, prm = pools["map"]
+    benign = ["z: 5\n", "c: 7\nz: [1]\n", "e: {q: 1}\n"]
+    for i in range(n // 18):
+        def pick(first=False):
+            if not first and rng.random() < 0.35:
+                return rng.choice(benign)
+            return rng.choice(plm if first else prm)
+        shape = rng.choice([(1, 2), (1, 3), (2, 1), (3, 1), (3,), (1, 1, 1), (2, 2), (1, 2, 1)])
+        files, first = [], True
+        for cnt in shape:
+            files.append([pick(first and j == 0) for j in range(cnt)])
+            first = False
+        via = rng.choice(["cli", "cli", "config", "none"])
+        m = "stop" if via == "none" else rng.choice(["stop", "stop", "left", "right", "rename"])
+        cases.append({"files": files, "mode": m, "via": via, "arrays": rng.choice(["all", "unique"])})
     return cases
 
 
